@@ -206,6 +206,12 @@ fn unicode_tables() {
     show("alphanumeric_ranges", &ranges(&|c| c.is_alphanumeric()));
     show("alphabetic_ranges", &ranges(&|c| c.is_alphabetic()));
     show("whitespace_ranges", &ranges(&|c| c.is_whitespace()));
+    // The two character classes behind str::to_lowercase's treatment of U+03A3 (Final_Sigma) are not
+    // public; they are recovered from its behaviour: "cΣ" ends in a final sigma iff c is cased and not
+    // case-ignorable, "AcΣ" iff c is case-ignorable or cased.
+    let fin = |t: String| t.to_lowercase().ends_with('\u{3c2}');
+    show("cased_not_ignorable_ranges", &ranges(&|c| fin(format!("{}\u{3a3}", c))));
+    show("case_ignorable_ranges", &ranges(&|c| fin(format!("A{}\u{3a3}", c)) && !fin(format!("{}\u{3a3}", c))));
     let mut lower = Vec::new();
     let mut upper = Vec::new();
     for cp in 0..0x110000u32 {
